@@ -204,6 +204,22 @@ def unmodelled_bounds(flat: Dict[str, Any], fams: Dict[str, Tuple[str, str]]) ->
     return out
 
 
+def declared_bound_mismatches(opts: Dict[str, Any], flat: Dict[str, Any]) -> List[Dict[str, Any]]:
+    """min_*/max_* arguments the caller declared (top level, encoder_config, head_config) that the built module does
+    not report back: the bounds every later step is judged against must be the DECLARED ones."""
+    out = []
+    for path, d in (("", opts), ("encoder", opts.get("encoder_config")), ("head_net", opts.get("head_config"))):
+        if not isinstance(d, dict):
+            continue
+        for k, v in d.items():
+            if not (k.startswith("min_") or k.startswith("max_")):
+                continue
+            key = f"{path}{SEP}{k}"
+            if key in flat and flat[key] != norm(v):
+                out.append({"path": path, "argument": k, "declared": v, "reported": flat[key]})
+    return out
+
+
 def conv_chain(hw: List[int], kernels: List[int], strides: List[int]) -> List[Tuple[int, int]]:
     """[(min spatial input, min spatial output)] per convolution, padding 0."""
     h, w = int(hw[0]), int(hw[1])
@@ -501,6 +517,9 @@ class Subject:
             s = spaces.Discrete(4)
         elif o == "dict":
             s = spaces.Dict({"image": img, "vector": vec})
+        elif o == "dict2img":
+            # two image sub-spaces served by ONE cnn_config: their nested extractors must stay independent
+            s = spaces.Dict({"cam_left": img, "cam_right": spaces.Box(0.0, 1.0, (3, h, w), dtype=np.float32), "vector": vec})
         elif o == "dict3":
             s = spaces.Dict({"image": img, "vector": vec, "seq": seq})
         elif o == "tuple":
@@ -1069,7 +1088,9 @@ def arg_choices(m, dotted: str, nodes: Tuple[int, ...] = (16, 32, 64), channels:
         elif p == "hidden_layer":
             if meth == "change_kernel":
                 n = len(c.get("channel_size", []))
-                pools[p] = list(range(1, min(4, n)))  # what the method itself draws
+                # layers 1..3 are what the method itself draws; layer 0 is a public argument choice as well (the
+                # first kernel of a Conv3d block carries the agent depth, which a kernel change has to keep)
+                pools[p] = list(range(0, min(4, n)))
             else:
                 n = len(c.get("hidden_size", c.get("channel_size", [0])))
                 pools[p] = list(range(0, n + 1))  # n is clamped to the last layer by the method
@@ -1295,13 +1316,17 @@ MODULE_SUBJECTS = [
     {"kind": "MultiInput", "obs": "tuple", "opts": dict(vector_space_mlp=True, hw=[10, 64])},
     {"kind": "MultiInput", "obs": "dict3", "opts": dict(recurrent=True, vector_space_mlp=True)},
     {"kind": "MultiInput", "obs": "dict3", "opts": dict(recurrent=False, latent_dim=32)},
+    {"kind": "MultiInput", "obs": "dict2img", "opts": dict(
+        latent_dim=16, max_latent_dim=32,
+        cnn_config=dict(channel_size=[16, 16], kernel_size=[3, 3], stride_size=[1, 1], min_channel_size=8, max_channel_size=64))},
+    {"kind": "MultiInput", "obs": "dict2img", "opts": dict(hw=[9, 7])},
 ]
 
 NETWORKS = {
     "QNetwork": (["vector", "image", "dict", "tuple", "seq", "seq_rec", "discrete", "simba", "resnet", "vector_cfg"], ["discrete", "multidiscrete"]),
     "RainbowQNetwork": (["vector", "image", "dict", "tuple", "seq"], ["discrete"]),
     "ContinuousQNetwork": (["vector", "image", "dict", "tuple", "simba", "seq"], ["box"]),
-    "ValueNetwork": (["vector", "image", "dict", "tuple", "seq_rec", "simba", "discrete", "image_cfg"], [None]),
+    "ValueNetwork": (["vector", "image", "dict", "tuple", "seq_rec", "simba", "discrete", "image_cfg", "dict2img"], [None]),
     "DeterministicActor": (["vector", "image", "dict", "tuple", "seq_rec", "simba", "vector_cfg"], ["box", "discrete"]),
     "StochasticActor": (["vector", "image", "dict", "tuple", "seq_rec", "simba"], ["box", "discrete", "multidiscrete", "multibinary", "box_squash"]),
 }
@@ -1338,4 +1363,8 @@ def network_subjects():
                 if (kind, obs) in NONSQUARE:
                     opts["hw"] = list(NONSQUARE[(kind, obs)])
                 out.append({"kind": kind, "obs": obs, "opts": opts})
+        # declared (non-default) latent bounds: the walk has to stay inside THESE, not inside the class defaults
+        out.append({"kind": kind, "obs": "vector", "opts": dict(
+            ({"action": actions[-1].replace("_squash", "")} if actions[-1] else {}),
+            latent_dim=24, min_latent_dim=16, max_latent_dim=40)})
     return out
